@@ -54,30 +54,43 @@ func LoadKnown() error {
 	if knownLoaded {
 		return nil
 	}
-	b, err := os.ReadFile(filepath.Join(VerifDir(), "findings", "known.json"))
-	if err != nil {
-		if os.IsNotExist(err) {
-			knownLoaded = true
-			return nil
-		}
-		return err
-	}
-	if err := json.Unmarshal(b, &known); err != nil {
-		return fmt.Errorf("known.json: %w", err)
-	}
-	for _, f := range known {
-		if f.Status == "open" {
-			if f.Signature == "" && len(f.Keys) == 0 {
-				return fmt.Errorf("known.json: %s has neither signature nor keys", f.ID)
+	files := []string{filepath.Join(VerifDir(), "findings", "known.json")}
+	more, _ := filepath.Glob(filepath.Join(VerifDir(), "findings", "known.d", "*.json"))
+	sort.Strings(more)
+	files = append(files, more...)
+	for _, file := range files {
+		b, err := os.ReadFile(file)
+		if err != nil {
+			if os.IsNotExist(err) {
+				continue
 			}
-			if f.Signature != "" {
-				if _, ok := signatures[f.Signature]; !ok {
-					return fmt.Errorf("known.json: %s names unknown signature %q", f.ID, f.Signature)
-				}
-			}
+			return err
 		}
+		var l []Finding
+		if err := json.Unmarshal(b, &l); err != nil {
+			return fmt.Errorf("%s: %w", file, err)
+		}
+		known = append(known, l...)
 	}
 	knownLoaded = true
+	return nil
+}
+
+// validateKnown checks that every open finding of a property names a registered signature.
+func validateKnown(prop string) error {
+	for _, f := range known {
+		if f.Status != "open" || f.Property != prop {
+			continue
+		}
+		if f.Signature == "" && len(f.Keys) == 0 {
+			return fmt.Errorf("known findings: %s has neither signature nor keys", f.ID)
+		}
+		if f.Signature != "" {
+			if _, ok := signatures[f.Signature]; !ok {
+				return fmt.Errorf("known findings: %s names unknown signature %q", f.ID, f.Signature)
+			}
+		}
+	}
 	return nil
 }
 
@@ -110,7 +123,8 @@ func matchKnown(m *Mismatch) string {
 			}
 		}
 		if f.Signature != "" {
-			if !signatures[f.Signature](m) {
+			sig := signatures[f.Signature]
+			if sig == nil || !sig(m) {
 				continue
 			}
 		}
